@@ -454,6 +454,38 @@ func runC19(c *Ctx) {
 
 	// ---- R5 block sync
 	{
+		// sibling of R4 common-below-finalized: both syncers revert down to a common block that the
+		// PEER names; each must refuse one below the finalized block before anything is reverted (the
+		// finality guard of deleteBlock stops the loop only after every non-finalized block is gone,
+		// and block sync never restores what it reverted)
+		bf := factsOf(bsync)
+		nd := 0
+		for _, sc := range CallsIn(bsync, "(*consensus/sync.blockSyncer).deleteTillCommonBlock") {
+			nd++
+			ok := false
+			for _, f := range bf.FactsAt(sc.Call.Block()) {
+				if f.IsCmp && f.Op.String() == ">=" && strings.Contains(f.L.String(), "getCommonBlockHeader(") && strings.HasSuffix(f.L.String(), ".Height") && strings.HasSuffix(f.R.String(), ".FinalizedBlockHeader.Height") {
+					ok = true
+				}
+			}
+			c.Require("C19.R5 common-below-finalized", FuncKey(bsync)+": revert guarded", p.InstrPos(sc.Call), "nothing is reverted unless common.height >= finalized.height (as in the fast syncer)", ok, "")
+		}
+		c.MinInstances("C19.R5 common-below-finalized", nd, 1)
+		for i, e := range bf.Edges {
+			f := bf.Facts[i]
+			if f.IsCmp && f.Op.String() == "<" && strings.Contains(f.L.String(), "getCommonBlockHeader(") && strings.HasSuffix(f.L.String(), ".Height") && strings.HasSuffix(f.R.String(), ".FinalizedBlockHeader.Height") {
+				isBan := func(in ssa.Instruction) bool {
+					cl, ok := in.(ssa.CallInstruction)
+					return ok && CalleeName(cl.Common()) == "(*p2p.Connection).BanPeer"
+				}
+				first := e.To.Instrs[0]
+				path := reachesReturnAvoiding(first, isBan, nil)
+				if isBan(first) {
+					path = nil
+				}
+				c.Require("C19.R5 common-below-finalized", FuncKey(bsync)+": ban", p.InstrPos(e.If), "a common block below the finalized block bans the peer", path == nil, pathStr(path))
+			}
+		}
 		for _, s := range CallsIn(common, "consensus/sync.getHeightWithGap") {
 			t := T(ArgK(s.Call, 1)).String()
 			c.Require("C19.R5 search-not-below-finalized", FuncKey(common), p.InstrPos(s.Call), "the common-block search is bounded below by the finalized height", strings.HasSuffix(t, ".FinalizedBlockHeader.Height"), t)
